@@ -14,7 +14,9 @@ def mask_adjacency_array(mask, adjacency_array):
 
 
 def reindex_adjacency_array(adjacency_array):
-    remap_vector = np.arange(np.max(adjacency_array) + 1)
+    # int(): np.arange with an unsigned 64-bit stop returns a float array,
+    # which would turn the re-indexed array into floats
+    remap_vector = np.arange(int(np.max(adjacency_array)) + 1)
     unique_values = np.unique(adjacency_array)
     remap_vector[unique_values] = np.arange(unique_values.shape[0])
 
